@@ -103,10 +103,17 @@ func runCase(r *evid.Run, dir string, cs int64, idx int) {
 	if rg.Intn(6) == 0 {
 		c.creation = 0 // creation time before the first block
 	}
-	if c.resume {
+	if c.boundary {
 		// the second batch must exist: birthday close to the start of the chain
+		// (the batch boundary lies ~2000 blocks above the birthday block)
 		c.creation = 300 + rg.Intn(40)
-		c.blocks = 2400 + rg.Intn(300)
+		if c.blocks < 4000 {
+			c.blocks = 2400 + rg.Intn(300)
+		}
+		if !c.resume && idx == 0 {
+			// uninterrupted: the watched-outpoint set lives in memory only
+			c.failAt, c.restartOn = 0, false
+		}
 	}
 	params := wh.Params(5)
 	ch := fakechain.New(params)
@@ -126,6 +133,7 @@ func runCase(r *evid.Run, dir string, cs int64, idx int) {
 	utxo := map[wire.OutPoint]btcutil.Amount{}
 	usedAddrs := map[string]btcutil.Address{}
 	txAt := map[chainhash.Hash]int32{} // every tx paying to / spending from the wallet -> height
+	payHeights := map[int32]bool{}     // heights with at least one payment to the wallet
 	var plog []string
 	n := 0
 	// pre-creation blocks carry no wallet payments ("no earlier block could pay the wallet")
@@ -138,6 +146,7 @@ func runCase(r *evid.Run, dir string, cs int64, idx int) {
 		after int
 	}
 	var boundaryOps []bop
+	reserved := map[wire.OutPoint]bool{} // only ever spent by the forced change-less spend
 	favScope, favBranch := waddrmgr.DefaultKeyScopes[rg.Intn(4)], uint32(rg.Intn(2))
 	var firstBatchLast int // filled after the wallet's birthday is known; boundary placement uses an estimate
 	for h := 1; h <= c.blocks; h++ {
@@ -197,7 +206,9 @@ func runCase(r *evid.Run, dir string, cs int64, idx int) {
 			txs = append(txs, tx)
 			utxo[wire.OutPoint{Hash: tx.TxHash(), Index: 0}] = amt
 			txAt[tx.TxHash()] = int32(h)
+			payHeights[int32(h)] = true
 			if nearBoundary {
+				reserved[wire.OutPoint{Hash: tx.TxHash(), Index: 0}] = true
 				boundaryOps = append(boundaryOps, bop{wire.OutPoint{Hash: tx.TxHash(), Index: 0}, h + 30})
 			}
 			plog = append(plog, fmt.Sprintf("h=%d pay %v/%d idx=%d (highest paid earlier %d, W=%d) amt=%d", h, b.scope, b.branch, idx, int(next[b])-1, c.W, amt))
@@ -221,19 +232,18 @@ func runCase(r *evid.Run, dir string, cs int64, idx int) {
 		if len(utxo) > 0 && (forced != nil || rg.Intn(6) == 0 || (c.boundary && pays == 0 && rg.Intn(30) == 0)) {
 			var ops []wire.OutPoint
 			for op := range utxo {
-				if txAt[op.Hash] < int32(h) {
+				if txAt[op.Hash] < int32(h) && !reserved[op] {
 					ops = append(ops, op)
 				}
 			}
 			sort.Slice(ops, func(i, j int) bool { return ops[i].String() < ops[j].String() })
+			if forced != nil {
+				ops = append(ops, *forced)
+			}
 			if len(ops) > 0 {
 				op := ops[rg.Intn(len(ops))]
 				if forced != nil {
-					if _, ok := utxo[*forced]; ok {
-						op = *forced
-					} else {
-						forced = nil
-					}
+					op = *forced
 				}
 				tx := wire.NewMsgTx(2)
 				tx.AddTxIn(wire.NewTxIn(&op, nil, nil))
@@ -501,6 +511,15 @@ func runCase(r *evid.Run, dir string, cs int64, idx int) {
 		fail("c16:birthday-block", err.Error())
 		return
 	}
+	if c.boundary {
+		// the first batch is (birthday, birthday+2000]: was its LAST block funded?
+		if payHeights[bb.Height+2000] {
+			r.Hit("chains-with-the-last-block-of-a-full-batch-funded", 1)
+		} else {
+			r.Hit("chains-where-the-estimated-batch-boundary-missed", 1)
+			plog = append(plog, fmt.Sprintf("note: birthday block %d, last block of the first batch %d not funded", bb.Height, bb.Height+2000))
+		}
+	}
 	firstCould := int32(-1)
 	for hh := int32(0); hh <= ch.Height(); hh++ {
 		if !ch.BlockAt(hh).Header.Timestamp.Before(creationTime) {
@@ -662,6 +681,7 @@ func main() {
 	r.Require("batch-boundary-chains", 1)
 	r.Require("recoveries-interrupted-by-backend-error", 3)
 	r.Require("recoveries-resumed-after-a-committed-batch", 1)
+	r.Require("chains-with-the-last-block-of-a-full-batch-funded", 1)
 	r.Require("lookahead-invariant-checks", 2000)
 	os.Exit(r.Finish())
 }
